@@ -40,7 +40,7 @@ H(a, l, s) ==
 (* Event::new reads) and the verdict validate_operation must give.          *)
 ParamTag(k, x) ==
     IF k = "SeqChanged" THEN ToString(x)
-    ELSE IF k \in {"ClaimOtherAuthor", "ForgedPrune", "Resigned"} THEN x ELSE ""
+    ELSE IF k \in {"ClaimOtherAuthor", "ForgedPrune", "Resigned", "ResignedLinked"} THEN x ELSE ""
 FId(b, k, x) == [b.id EXCEPT !.v = k \o ":" \o ParamTag(k, x)]
 
 \* signed by the claimed author, but malformed: one validate_header / validate_operation branch each
@@ -60,12 +60,18 @@ Forge(b, k, x) ==
       \* verifying key replaced by the attacker's and re-signed with the attacker's key:
       \* a VALID operation of the attacker whose backlink points into the victim's log
       [] k = "Resigned"          -> [b EXCEPT !.id = FId(b, k, x), !.a = x]
+      \* the attacker mirrors the victim's chain under its own key: like Resigned, but the backlink is
+      \* fixed up to the attacker's copy of the predecessor (a well-linked attacker chain)
+      \* (at seq 0 there is no backlink: the copy IS the Resigned copy, same bytes, same id)
+      [] k = "ResignedLinked"    -> [b EXCEPT !.id = FId(b, IF b.seq = 0 THEN "Resigned" ELSE k, x), !.a = x,
+                                              !.bl = IF b.seq = 0 THEN NoId
+                                                     ELSE [b.bl EXCEPT !.v = (IF b.seq = 1 THEN "Resigned" ELSE k) \o ":" \o x]]
       \* the honest operation itself (same hash), delivered on the topic of ANOTHER log x
       [] k = "CrossLog"          -> [b EXCEPT !.l = x]
 
 Params(b, k) ==
     CASE k \in {"ClaimOtherAuthor", "ForgedPrune"} -> (Author \cup Mallory) \ {b.a}
-      [] k = "Resigned"   -> Mallory
+      [] k \in {"Resigned", "ResignedLinked"} -> Mallory
       [] k = "CrossLog"   -> Log \ {b.l}
       [] k = "SeqChanged" -> (0..MaxSeq) \ {b.seq}
       [] OTHER            -> {0}
@@ -158,7 +164,7 @@ NoPositions == {}
 AllClasses == {"BadSig", "BadVersion", "PayloadInfoInconsistent", "BacklinkSeqInconsistent",
                "BodyMismatch", "ClaimOtherAuthor", "PruneFlipped", "SeqChanged",
                "BacklinkChanged", "ForgedPrune", "Resigned"}
-OnlyResigned == {"Resigned"}
+OnlyResigned == {"Resigned", "ResignedLinked"}
 OnlyCrossLog == {"CrossLog"}
 PruneAttackClasses == {"ForgedPrune", "PruneFlipped", "ClaimOtherAuthor", "BadSig", "Resigned"}
 =============================================================================
